@@ -75,3 +75,28 @@ Theorem C02_conform_today : forall t, tx_wf t ->
   m_tx_bytes SchemaGen.enc_schema SchemaGen.enum_values t = Ok (ref_tx_bytes t).
 Proof. exact (tx_bytes_ok _ _ C02_tables_today C02_enums_today). Qed.
 Print Assumptions C02_conform_today.
+
+(* ---- non-vacuity: a transaction using every part of the reference model satisfies the premise, and today's tables
+        give exactly the reference bytes for it ---- *)
+From PyC Require Import LedgerExamples LedgerShape.
+Theorem C02_premise_inhabited : tx_wf tx1 /\ m_tx_bytes SchemaGen.enc_schema SchemaGen.enum_values tx1 = Ok (ref_tx_bytes tx1).
+Proof. split; [exact tx1_wf | exact (C02_conform_today tx1 tx1_wf)]. Qed.
+Print Assumptions C02_premise_inhabited.
+
+(* ---- shape clauses of the property, for every content: definite lengths, tags only 258 / 24 / 30 / 259 ---- *)
+Theorem C02_shape_body : forall tagged b, plainb (ref_body tagged b) = true.
+Proof. exact plain_body. Qed.
+Print Assumptions C02_shape_body.
+Theorem C02_shape_auxiliary_data : forall a, plainb (ref_aux a) = true.
+Proof. exact plain_aux. Qed.
+Print Assumptions C02_shape_auxiliary_data.
+Theorem C02_shape_witness_set : forall tagged w, w_data w = None -> w_redeemers w = None -> plainb (ref_witness_set tagged w) = true.
+Proof. exact plain_witness_set. Qed.
+Print Assumptions C02_shape_witness_set.
+Theorem C02_plain_is_definite : forall x, plainb x = true -> definite x.
+Proof. exact plain_definite. Qed.
+Print Assumptions C02_plain_is_definite.
+(* shortest-form heads: the head of an item with argument n occupies width n bytes: 1 below 24, 2 below 2^8, 3 below 2^16, ... *)
+Theorem C02_shortest_heads : forall m n, lenN (Cbor.head m n) = Cbor.width n.
+Proof. exact Cbor.head_length. Qed.
+Print Assumptions C02_shortest_heads.
